@@ -119,8 +119,10 @@ Proof.
     cbn [app conv_toks flat_map conv_tok map XUnsrc.unsrc_tok]. apply XSplit.sp_same. exact IH.
   - unfold pi_toks. rewrite !conv_toks_app, !(errs_conv _ (bad_errs_err _)).
     cbn [app conv_toks flat_map conv_tok map XUnsrc.unsrc_tok]. apply XSplit.sp_same. exact IH.
-  - unfold doctype_toks. rewrite conv_toks_app, (errs_conv _ (bad_errs_err _)).
-    cbn [app conv_toks flat_map conv_tok map XUnsrc.unsrc_tok]. apply XSplit.sp_same. exact IH.
+  - unfold doctype_toks. destruct n as [|n0 nr].
+    + cbn [app conv_toks flat_map conv_tok map XUnsrc.unsrc_tok TM.ostr]. apply XSplit.sp_same. exact IH.
+    + rewrite conv_toks_app, (errs_conv _ (bad_errs_err _)).
+      cbn [app conv_toks flat_map conv_tok map XUnsrc.unsrc_tok]. apply XSplit.sp_same. exact IH.
 Qed.
 
 Lemma splits_refl : forall l, XSplit.splits l l.
